@@ -315,7 +315,7 @@ class CompiledSimulation(object):
                 start, count = self._inputpos[name]
                 start += n * self._ibufsz
                 val = inmap[w]
-                if val >= 1 << self._inputbw[name]:
+                if val < 0 or val >= 1 << self._inputbw[name]:
                     raise PyrtlError(
                         'Wire {} has value {} which cannot be represented '
                         'using its bitwidth'.format(name, val))
